@@ -54,6 +54,25 @@ reg("C20", "Three breadth-first explorers (Emulsion, EmulsionTimeCourse, Droplet
     COMMON_NOTE + " Dedupe assumes no hidden state outside droplet buffers, dtypes and time lists.", "explicit-state BFS over operation histories of the real collections vs. list reference model")
 reg("C15", "The real refine_droplets / locate_droplets(refine=True) / EmulsionTimeCourse.from_storage are run under a controlled virtual-time executor installed at the concurrent.futures seam: for every worker count k (2..n+1 and 'auto') every feasible completion order of the n tasks on a FIFO k-worker pool is enumerated (count asserted against the closed form k!*k^(n-k)), tasks execute in separate worker states across a real pickle boundary, and the result is compared bit-for-bit and in order with the serial run; repeat runs and a free-running real ProcessPoolExecutor pass complete it." + X,
     COMMON_NOTE + " Real OS scheduling/prefetch of ProcessPoolExecutor is covered only by the uncontrolled conformance pass.", "exhaustive enumeration of completion schedules under a controlled executor vs. serial reference")
+# additions of later rounds (appended to the level text)
+ADD = {
+    "C01": " Also: the same placements measured in length units 1e-9 ... 1e12.",
+    "C02": " Also: every image of a 3x4 cylindrical / anisotropic 3x3 grid analysed in sequence on one shared grid object.",
+    "C03": " Also: axisymmetric perturbed droplets on 3-d Cartesian grids and every ordered pair of amplitude counts rendered in one fresh process.",
+    "C04": " Also: candidates that cover no cell and perturbed candidates without modes.",
+    "C05": " Also: numeric thresholds off the mid level and ordered pairs/triples of images analysed with worker processes (controlled pool) in one process.",
+    "C06": " Also: time courses continued by append() without a time stamp.",
+    "C07": " Also: time courses continued by append() without a time stamp; tracks obtained directly from stored fields (from_storage) on all histories of <= 3 frames must equal those of the analysed time course.",
+    "C09": " Also: tracking with a polar / spherical / cylindrical grid supplied and refine_droplet called directly on the droplet catalogue.",
+    "C12": " Also: perturbed classes over the whole radius lattice (sphere limit, homogeneity in the radius, vanished droplets).",
+    "C15": " Also: a candidate exactly on the coordinate origin and a translated-box storage scenario in the call histories.",
+    "C16": " Also: seven forms of the wave-number request (starting at 0, single value, descending, tuple, array).",
+    "C17": " Also: neighbouring tiny spacings (1e-10, 1e-9, 2e-9) and a knife-edge screen computed from an own FFT spectrum.",
+    "C19": " Also: request preludes (a perturbed-shape request on a grid of each family made first in the same process).",
+    "C20": " Also: bulk additions with consistency requested (list and collection arguments).",
+}
+
+
 def main():
     checks, na = [], []
     for p in props:
@@ -67,7 +86,7 @@ def main():
                 "evidence_file": f"/verif/evidence/{pid}.json",
                 "replay_cmd_template": f"./check {pid} quick --replay {{path}}",
                 "engine": "mcx",
-                "level_claimed": {"category": "model_checking", "text": t["text"], "design_ref": t["ref"]},
+                "level_claimed": {"category": "model_checking", "text": t["text"] + ADD.get(pid, ""), "design_ref": t["ref"]},
                 "level_note": t["note"],
                 "technique": t["technique"],
             })
